@@ -347,7 +347,7 @@ impl Check for C16 {
     }
     fn units(&self, tier: Tier, _seed: u64) -> u64 {
         // unit 0: n<=3 all roots; units 1..=64: n=4 slices (root 0 in quick, all roots in thorough); then random
-        1 + 64 + tier.pick(16, 160)
+        1 + 64 + tier.pick(64, 320)
     }
     fn run_unit(&self, unit: u64, ctx: &mut Ctx) {
         if unit == 0 {
